@@ -36,6 +36,11 @@ itself (its own counter).  Any injective naming scheme models Python's "a new ob
 from every existing object"; this one makes the objects of a branch independent of what the other
 branches allocate, and lets one read off a copy for whom it was made.
 
+The code that runs inside one method invocation (the elements and accumulators) is written in the
+state monad `M` over the heap and the branch's own allocation counter, with the primitives
+`allocM` (a new object), `readM`, `writeM`/`updM` (mutation in place), `copyM`
+(`copy.deepcopy` of one object), so that a `do` block reads like the Python it transcribes.
+
 No imports except `Model/C03.lean` (`Kind`, `readBlock`) and `Model/Flow.lean` (`Value`, `dictSet`). -/
 
 namespace Lena.C04
